@@ -95,9 +95,27 @@ def stall_for(s):
     return 8 * len(all_cmds(s)) + 64
 
 
+def slots(s):
+    """the command table as the library sees it: one (command index, group index) per registration, in registration
+    order.  A group with "alias": k registers the command array of group k a second time (same command objects)."""
+    first, n = [], 0
+    for g in s["groups"]:
+        first.append(n)
+        n += len(g["cmds"])
+    r = []
+    for gi, g in enumerate(s["groups"]):
+        src = g.get("alias")
+        k = gi if src is None else src
+        r += [(first[k] + j, gi) for j in range(len(s["groups"][k]["cmds"]))]
+    return r
+
+
 def to_protocol(s, budget=None, stall=None):
     o = ["BUF %d %d %d" % (1 if s["shared"] else 0, s["bufsz"], s["ubufsz"])]
     for g in s["groups"]:
+        if g.get("alias") is not None:
+            o.append("GALIAS %s %d %d" % (hxn(g.get("name")), 1 if g["disable"] else 0, g["alias"]))
+            continue
         o.append("GROUP %s %d" % (hxn(g.get("name")), 1 if g["disable"] else 0))
         for c in g["cmds"]:
             hm = sum(1 << i for i, k in enumerate(KINDS) if k in c["h"])
